@@ -349,7 +349,8 @@ class Frame:
             elif a == b:
                 out[k] = a
             else:
-                out[k] = T.gamma(c, a, b)
+                m = T.merge_arrs(a, b)
+                out[k] = m if m is not None else T.gamma(c, a, b)
         return out
 
     # ------------------------------------------------------------------ loops
@@ -390,6 +391,8 @@ class Frame:
         return self.iter_of_term(it, depth)
 
     def iter_of_term(self, it, depth):
+        if it[0] == 'nd':
+            it = it[1]
         if it[0] == 'records':
             key = ('rows', it[1])
             lv = ('lv', key, depth)
@@ -418,7 +421,34 @@ class Frame:
             return T.div(T.sub(lv, key[1]), key[3])
         return lv
 
+    def unrollable(self, it_node):
+        """literal (or constant-folded) short sequences are unrolled: exact semantics, lets option-key loops fold"""
+        n = it_node
+        wrap = None
+        if isinstance(n, ast.Call) and isinstance(n.func, ast.Name) and n.func.id == 'enumerate' and 'enumerate' not in self.env and len(n.args) == 1:
+            wrap, n = 'enumerate', n.args[0]
+        if isinstance(n, ast.Call) and isinstance(n.func, ast.Name) and n.func.id in ('range', 'zip', 'product'):
+            return None
+        t = self.ex(n)
+        if t[0] == 'nd':
+            t = t[1]
+        if t[0] in ('list', 'tuple') and len(t[1]) <= 8:
+            if wrap:
+                return [('tuple', (C(i), e)) for i, e in enumerate(t[1])]
+            return list(t[1])
+        return None
+
     def st_For(self, s):
+        items = self.unrollable(s.iter)
+        if items is not None and not any(isinstance(x, (ast.Break, ast.Continue)) for b in s.body for x in ast.walk(b)):
+            for e in items:
+                self.assign(s.target, e, s)
+                out = self.block(s.body)
+                if out != FALL:
+                    return out
+            if s.orelse:
+                return self.block(s.orelse)
+            return FALL
         key, lv, elem = self.iter_binding(s.iter)
         assigned = _assigned_names(s.body)
         targets = _target_names(s.target)
@@ -482,6 +512,28 @@ class Frame:
         if name in self.alias:
             self.param_out[self.alias[name]] = new
 
+    # a "place" is a local name or an attribute of a modelled object (self.x)
+    def is_place(self, node):
+        if isinstance(node, ast.Name):
+            return True
+        if isinstance(node, ast.Attribute) and isinstance(node.value, ast.Name):
+            b = self.env.get(node.value.id)
+            return b is not None and b[0] == 'obj'
+        return False
+
+    def place_get(self, node):
+        if isinstance(node, ast.Name):
+            return self.env.get(node.id, ('opaque', node.id))
+        b = self.env[node.value.id]
+        return self.ctx.heap[b[1]]['attrs'].get(node.attr, ('undefined', node.attr))
+
+    def place_set(self, node, new):
+        if isinstance(node, ast.Name):
+            self.update_name(node.id, new)
+        else:
+            b = self.env[node.value.id]
+            self.ctx.heap[b[1]]['attrs'][node.attr] = new
+
     def assign(self, t, v, node):
         if isinstance(t, ast.Name):
             self.env[t.id] = v
@@ -526,9 +578,9 @@ class Frame:
             self.update_name(name, new)
             self.ctx.event('store', base_node.attr, (cur, k, v), guard=g, loops=self.loops, where=self.where(node), extra={'target': name})
             return
-        if isinstance(base_node, ast.Name):
-            name = base_node.id
-            cur = self.env.get(name, ('opaque', name))
+        if self.is_place(base_node):
+            name = ast.unparse(base_node)
+            cur = self.place_get(base_node)
             if isinstance(t.slice, ast.Slice):
                 k = ('sl',) + tuple(self.ex(x) if x is not None else NONE for x in (t.slice.lower, t.slice.upper, t.slice.step))
                 if k[1] == C(0):
@@ -552,7 +604,7 @@ class Frame:
                 new = cur
             else:
                 new = _arr_store(cur, k, v, g)
-            self.update_name(name, new)
+            self.place_set(base_node, new)
             self.ctx.event('store', 'subscript', (cur, k, v), guard=g, loops=self.loops, where=self.where(node), extra={'target': name})
             return
         # store through a computed base (element of a list, attribute ...): heap event
@@ -894,9 +946,7 @@ class Frame:
 
 
 def _arr_store(cur, k, v, g):
-    if cur[0] == 'arr':
-        return ('arr', cur[1], cur[2] + ((k, v, g),))
-    return ('arr', cur, ((k, v, g),))
+    return T.arr_store(cur, k, v, g)
 
 
 def _load(t):
@@ -922,13 +972,6 @@ def _assigned_names(body):
                     for y in ([t] if isinstance(t, ast.Name) else t.elts if isinstance(t, (ast.Tuple, ast.List)) else []):
                         if isinstance(y, ast.Name) and y.id not in out:
                             out.append(y.id)
-                    # subscript stores and mutator calls keep the name bound to the same object, but its term changes
-                    if isinstance(t, ast.Subscript):
-                        r = t.value
-                        while isinstance(r, (ast.Subscript, ast.Attribute)):
-                            r = r.value
-                        if isinstance(r, ast.Name) and r.id not in out:
-                            out.append(r.id)
             elif isinstance(x, ast.For):
                 for y in ast.walk(x.target):
                     if isinstance(y, ast.Name) and y.id not in out:
